@@ -20,6 +20,8 @@ func chunkCheck(h *rt.H, c *codec, doc []byte, cuts []bool) {
 	h.Assert("verdict", (errA == nil) == (errB == nil))
 	if errA == nil && errB == nil {
 		h.Assert("events", ev.Equal(a.Events, b.Events))
+		// C09: also the chunked run's stream obeys the visitor contract
+		h.Assert("contract", ev.Contract(b.Events) == "")
 	}
 
 	var w ev.Recorder
@@ -64,25 +66,43 @@ func CHUNK_cborl(h *rt.H)  { chunkBytes(h, cborCodec) }
 func CHUNK_ubjson(h *rt.H) { chunkBytes(h, ubjsonCodec) }
 func CHUNK_json(h *rt.H)   { chunkBytes(h, jsonCodec) }
 
+// repChoice: the representation choices of a shaped document; a second document of
+// the same stream reuses the first one's choices (only the shapes multiply).
+type repChoice struct {
+	set                         bool
+	rep, container, indef, ws int
+}
+
 // shapedDoc builds a valid document of the codec from a generated value with
 // symbolic scalars and symbolically chosen representation (widths, markers,
 // definite/indefinite, counted/typed, whitespace).
-func shapedDoc(h *rt.H, c *codec) []byte {
+func shapedDoc(h *rt.H, c *codec) []byte { return shapedDocRep(h, c, &repChoice{}) }
+
+func shapedDocRep(h *rt.H, c *codec, r *repChoice) []byte {
 	v := gen.Value(h, genCfg(h))
+	if !r.set {
+		r.set = true
+		switch c {
+		case cborCodec:
+			r.rep, r.indef = h.Choose("rep", 0, 4), h.Choose("indef", 0, 1)
+		case ubjsonCodec:
+			r.rep, r.container = h.Choose("rep", 0, 4), h.Choose("container", 0, 3)
+		default:
+			r.ws = h.Choose("ws", 0, 4)
+		}
+	}
 	switch c {
 	case cborCodec:
 		// REP=0: one width choice per document for lengths and integers; REP=1: the
 		// width of every integer is chosen separately
-		rep := h.Choose("rep", 0, 4)
-		o := gen.CBOROpts{Width: []int{0, 1, 2, 4, 8}[rep], Indef: h.Choose("indef", 0, 1) == 1, IntW: rep}
+		o := gen.CBOROpts{Width: []int{0, 1, 2, 4, 8}[r.rep], Indef: r.indef == 1, IntW: r.rep}
 		if h.Param("REP", 0) == 1 {
 			o.IntW = -1
 		}
 		return gen.EncodeCBOR(h, v, o, nil)
 	case ubjsonCodec:
-		rep := h.Choose("rep", 0, 4)
-		m := []byte{'i', 'U', 'I', 'l', 'L'}[rep]
-		o := gen.UBJOpts{Container: h.Choose("container", 0, 3), LenMarker: m, IntMarker: m}
+		m := []byte{'i', 'U', 'I', 'l', 'L'}[r.rep]
+		o := gen.UBJOpts{Container: r.container, LenMarker: m, IntMarker: m}
 		if o.Container == 3 {
 			o.Container, o.Noop = 0, true
 		}
@@ -91,12 +111,20 @@ func shapedDoc(h *rt.H, c *codec) []byte {
 		}
 		return gen.EncodeUBJSON(h, v, o, nil)
 	}
-	return gen.JSONText(h, v, gen.JSONOpts{WS: h.Choose("ws", 0, 4)}, nil)
+	return gen.JSONText(h, v, gen.JSONOpts{WS: r.ws}, nil)
 }
 
 // chunkShape: a shaped valid document x (every single cut position | all single bytes).
 func chunkShape(h *rt.H, c *codec) {
-	doc := shapedDoc(h, c)
+	r := &repChoice{}
+	doc := shapedDocRep(h, c, r)
+	// DOCS=2: a stream of two documents; the cut positions include the boundary
+	if h.Param("DOCS", 1) == 2 {
+		if c == jsonCodec {
+			doc = append(doc, ' ')
+		}
+		doc = append(doc, shapedDocRep(h, c, r)...)
+	}
 	n := len(doc)
 	cuts := make([]bool, n)
 	pos := h.Choose("cutpos", 0, n-1) // n-1: every byte its own chunk
